@@ -13,6 +13,11 @@ the ordered read of the characterisation routines; ModelIsotherm.pressure / load
 (1) the SI oracle at the temperature IN KELVIN, (2) the permanent conversion of a clone read natively (same branch, same
 limits, same query), (3) the Lean model of the state (Model/Access.lean `accessPressureAt`, `column`, `modelPressureColumn`,
 ...; theorems in Props/C03/Whole.lean); requests are biased to those that need p0(T) or the densities at T.
+
+FALSY option values (section (8) of the state probe; Props/C03/Fill.lean `interpFill`): every option kind is generated with the member
+that Python's truth test takes for "absent" -- fill rules (a number, a (below, above) pair) with the number zero in eight Python / numpy
+types, a lower limit of zero, a query pressure / loading of exactly zero, a stored point at the origin -- on loading_at, pressure_at,
+spreading_pressure_at, pressure(), loading(), other_data and the ModelIsotherm accessors, in stored and in requested units.
 """
 import itertools
 import math
@@ -113,6 +118,29 @@ def mtok(marks):
 
 def lim_tok(lim):
     return ["-", "-"] if lim is None else [tok(lim[0]), tok(lim[1])]
+
+
+ZERO_KINDS = ("int", "float", "negzero", "np.float64", "np.int64", "np.float32", "0-d array", "1-element array")
+
+
+def zero_of(np, kind):
+    """the number zero in every type a caller may hand over (all of them falsy in Python except the 1-element list)"""
+    return {"int": 0, "float": 0.0, "negzero": -0.0, "np.float64": np.float64(0.0), "np.int64": np.int64(0), "np.float32": np.float32(0.0),
+            "0-d array": np.array(0.0), "1-element array": np.array([0.0])}[kind]
+
+
+def fill_rules(rng, np):
+    """Fill rules of every documented kind (a number, a (below, above) pair), each kind WITH ITS FALSY MEMBER (the number zero in several
+    types); -> [(name, rule, (value below, value above))].  The zero rule is always present."""
+    zk, zk2 = rng.choice(ZERO_KINDS), rng.choice(ZERO_KINDS[:6])
+    z, z2 = zero_of(np, zk), zero_of(np, zk2)
+    x, y = round(rng.uniform(0.5, 9.0), 3), round(rng.uniform(0.5, 9.0), 3)
+    rules = [("zero:" + zk, z, (0.0, 0.0))]
+    more = [("number", rng.choice([x, np.float64(x), -x]), None), ("pair", (x, y), (x, y)), ("pair zero below:" + zk2, (z2, y), (0.0, y)),
+            ("pair zero above:" + zk2, (x, z2), (x, 0.0)), ("pair of zeros:" + zk2, (z2, zero_of(np, rng.choice(ZERO_KINDS[:6]))), (0.0, 0.0))]
+    for name, r, e in rng.sample(more, 3):
+        rules.append((name, r, e if e is not None else (float(r), float(r))))
+    return rules
 
 
 def run(ck):
@@ -243,6 +271,13 @@ def run(ck):
                 v = float(iso.loading_at(bad, interp_fill=(1.25, 7.5)))
                 if v != (1.25 if bad < up[0] else 7.5):
                     ck.fail_case({"accessor": "PointIsotherm.loading_at", "clause": "fill rule used outside the range"}, {"query": bad, "value": v})
+                zr = zero_of(np, rng.choice(ZERO_KINDS))          # the falsy member of the fill rules: zero outside the data
+                try:
+                    v = float(np.asarray(iso.loading_at(bad, interp_fill=zr), dtype=float).reshape(-1)[0])
+                except Exception as e:  # noqa
+                    v = repr(e)[:160]
+                if v != 0.0:
+                    ck.fail_case({"accessor": "PointIsotherm.loading_at", "clause": "fill rule used outside the range", "fill_kind": "zero"}, {"query": bad, "interp_fill": repr(zr), "value": v})
             # desorption branch: knots and interior
             dq = (ps[n] + ps[n + 1]) / 2
             try:
@@ -535,7 +570,7 @@ def run(ck):
         e_lim = mid_limits(es)
         for branch in (None, "ads", "des", "all"):
             rows = idx[None if branch == "all" else branch]
-            for lim in (None, e_lim, (es[1], es[-2]), (None, es[2]), (0, 0), (es[0], None)):
+            for lim in (None, e_lim, (es[1], es[-2]), (None, es[2]), (0, 0), (es[0], None), (0, es[1]), (0.0, es[2])):
                 if lim is None or not (lim[0] or lim[1]):
                     exp = [es[i] for i in rows]
                 else:
@@ -697,6 +732,173 @@ def run(ck):
                     ck.fail_case({"accessor": "PointIsotherm." + fn, "clause": "coincides at knots for every kind / linear by default after another kind", "state": route},
                                  {"branch": branch, "kind": kind, "at_knot": [xs[i1], yk, ys[i1]], "mid": [xm, y2, y3, ylin]})
 
+        # ---- (8) FALSY BUT MEANINGFUL argument values: the member of every option kind that Python's truth test takes for "absent"
+        def f1(v):
+            return float(np.asarray(v, dtype=float).reshape(-1)[0])
+
+        def fl(v):
+            return [float(x) for x in np.asarray(v, dtype=float).reshape(-1)]
+
+        # (8a) fill rules (a number; a (below, above) pair), each kind with the number zero in several types: "refused outside the measured range
+        #      UNLESS A FILL RULE IS GIVEN" -- outside the range the rule's value, inside the straight line, at a knot the datum; array and scalar queries
+        rules = fill_rules(rng, np)
+        clause_f = "a fill rule is given: the rule's value outside the measured range, the interpolated value inside (never refused)"
+        for branch in ("ads", "des"):
+            rows = idx[branch]
+            if len(rows) < 2:
+                continue
+            bp, bl = [ps[i] for i in rows], [ls[i] for i in rows]
+            for fn, xs, ys in (("loading_at", bp, bl), ("pressure_at", bl, bp)):
+                f = getattr(iso, fn)
+                lo_x, hi_x = min(xs), max(xs)
+                xm = (xs[0] + xs[1]) / 2
+                ylin = ys[0] + (ys[1] - ys[0]) * (xm - xs[0]) / (xs[1] - xs[0])
+                q = [lo_x * 0.5, xm, xs[1], hi_x * 1.5]
+                for name, rule, (e_lo, e_hi) in rules:
+                    ck.count(("fill", fn, branch, name), bucket="fill-rule:" + name.split(":")[0])
+                    try:
+                        got = fl(f(q, branch=branch, interp_fill=rule))
+                        gs = [f1(f(q[0], branch=branch, interp_fill=rule)), f1(f(q[3], branch=branch, interp_fill=rule))]
+                        ok = (len(got) == 4 and got[0] == e_lo and got[3] == e_hi and close(got[1], ylin, rel=1e-12) and close(got[2], ys[1], rel=1e-12)
+                              and gs == [e_lo, e_hi])
+                    except Exception as e:  # noqa
+                        got, gs, ok = repr(e)[:160], None, False
+                    if not ok:
+                        ck.fail_case({"accessor": "PointIsotherm." + fn, "clause": clause_f, "fill_kind": name.split(":")[0], "state": route},
+                                     {"branch": branch, "interp_fill": repr(rule), "fill_type": type(rule).__name__, "query": q, "got": got, "scalar_queries": gs,
+                                      "expected": [e_lo, ylin, ys[1], e_hi], "range": [lo_x, hi_x]})
+                # the rule belongs to ITS call: zero after a non-zero rule is zero; no rule afterwards is a refusal; zero in another type is zero again
+                za, zb = zero_of(np, rng.choice(ZERO_KINDS)), zero_of(np, rng.choice(ZERO_KINDS))
+                seq = []
+                try:
+                    seq.append(["interp_fill=(1.25, 7.5)", f1(f(q[3], branch=branch, interp_fill=(1.25, 7.5)))])
+                    seq.append(["interp_fill=" + repr(za), f1(f(q[3], branch=branch, interp_fill=za))])
+                    try:
+                        seq.append(["no rule", f1(f(q[3], branch=branch))])
+                    except ValueError:
+                        seq.append(["no rule", "refused"])
+                    seq.append(["interp_fill=" + repr(zb), f1(f(q[0], branch=branch, interp_fill=zb))])
+                    seq.append(["interp_fill=(0, 7.5)", f1(f(q[3], branch=branch, interp_fill=(0, 7.5)))])
+                    oks = [x[1] for x in seq] == [7.5, 0.0, "refused", 0.0, 7.5]
+                except Exception as e:  # noqa
+                    seq.append(["raised", repr(e)[:160]])
+                    oks = False
+                ck.count(("fill-sequence", fn, branch), bucket="call-sequence")
+                if not oks:
+                    ck.fail_case({"accessor": "PointIsotherm." + fn, "clause": "every call is answered under its own fill rule (zero rule / no rule / pair in sequence on one object)", "state": route},
+                                 {"branch": branch, "queries": [q[0], q[3]], "calls": seq, "expected": [7.5, 0.0, "refused", 0.0, 7.5]})
+
+        # (8b) the zero rule with the query and the answer in a REQUESTED representation: zero is zero in every unit, and the permanently converted
+        #      copy under the same rule agrees (stored fraction + material change is finding S5a: the material stays as stored there, like in (4))
+        #      (requested fraction + material change in loading_at is finding S5b: same)
+        zname, zrule, _ = rules[0]
+        m8 = (lab[4], lab[5]) if (stored_frac or req_frac) else rq_m
+        kw8 = dict(loading_basis=rq_l[0], loading_unit=rq_l[1], material_basis=m8[0], material_unit=m8[1])
+        copy_ok = cl is not None and m8 == tuple(rq_m)
+        for branch in ("ads", "des"):
+            rows = idx[branch] if branch == "ads" else idx[branch][::-1]
+            if len(rows) < 2:
+                continue
+            kp, kl = [ps[i] for i in rows], [ls[i] for i in rows]
+            pm_, lm_ = (kp[0] + kp[1]) / 2, (kl[0] + kl[1]) / 2
+            qq = [float(expected_pressure(P, lab, rq_p, v)) for v in (min(kp) * 0.5, pm_, max(kp) * 1.5)]
+            e_mid = expected_loading(P, lab, rq_l, m8, lm_)
+            ck.count(("fill-foreign", "loading_at", branch, zname, tuple(lab[:6]), rq_p, rq_l, m8), bucket="fill-rule:zero, requested units")
+            try:
+                got = fl(iso.loading_at(qq, branch=branch, interp_fill=zrule, **pkw, **kw8))
+                ok = len(got) == 3 and got[0] == 0.0 and got[2] == 0.0 and close(got[1], e_mid, rel=1e-9)
+                ref = None
+                if ok and copy_ok:
+                    ref = fl(cl.loading_at(qq, branch=branch, interp_fill=zrule))
+                    ok = vals_eq(got, ref, 1e-9)
+            except Exception as e:  # noqa
+                got, ref, ok = repr(e)[:160], None, False
+            if not ok:
+                ck.fail_case({**base_sig, "accessor": "PointIsotherm.loading_at", "clause": clause_f, "fill_kind": "zero", "units": "requested"},
+                             {"branch": branch, "interp_fill": repr(zrule), "query": qq, "got": got, "expected": [0.0, float(e_mid), 0.0], "converted_copy": ref})
+            if rq_l[1] is None:
+                continue
+            lq3 = [float(expected_loading(P, lab, rq_l, m8, v)) for v in (min(kl) * 0.5, lm_, max(kl) * 1.5)]
+            e_mid = expected_pressure(P, lab, rq_p, pm_)
+            ck.count(("fill-foreign", "pressure_at", branch, zname, tuple(lab[:6]), rq_p, rq_l, m8), bucket="fill-rule:zero, requested units")
+            try:
+                got = fl(iso.pressure_at(lq3, branch=branch, interp_fill=zrule, **kw8, **pkw))
+                ok = len(got) == 3 and got[0] == 0.0 and got[2] == 0.0 and close(got[1], e_mid, rel=1e-9)
+                ref = None
+                if ok and copy_ok:
+                    ref = fl(cl.pressure_at(lq3, branch=branch, interp_fill=zrule))
+                    ok = vals_eq(got, ref, 1e-9)
+            except Exception as e:  # noqa
+                got, ref, ok = repr(e)[:160], None, False
+            if not ok:
+                ck.fail_case({**base_sig, "accessor": "PointIsotherm.pressure_at", "clause": clause_f, "fill_kind": "zero", "units": "requested"},
+                             {"branch": branch, "interp_fill": repr(zrule), "query": lq3, "got": got, "expected": [0.0, float(e_mid), 0.0], "converted_copy": ref})
+
+        # (8c) the same rule in another spelling is the same rule (number c = pair (c, c) = numpy number c), also for the integral of the interpolant;
+        #      without a rule a pressure above the measured range is refused there too
+        p_hi = max(pa) * 1.5
+        try:
+            sv = [f1(iso.spreading_pressure_at(p_hi, interp_fill=r)) for r in (zrule, (0.0, 0.0), 0, np.float64(0.0))]
+            oks = all(math.isfinite(v) and close(v, sv[1], rel=1e-12) for v in sv)
+        except Exception as e:  # noqa
+            sv, oks = repr(e)[:200], False
+        ck.count(("fill-spreading", zname), bucket="fill-rule:spreading pressure")
+        if not oks:
+            ck.fail_case({"accessor": "PointIsotherm.spreading_pressure_at", "clause": "one fill rule in several spellings (number, pair, numpy number) gives one answer, never a refusal", "state": route},
+                         {"pressure": p_hi, "fills": [repr(zrule), "(0.0, 0.0)", "0", "np.float64(0.0)"], "got": sv})
+        try:
+            v = iso.spreading_pressure_at(p_hi)
+            ck.fail_case({"accessor": "PointIsotherm.spreading_pressure_at", "clause": "outside the measured range is refused without a fill rule", "state": route}, {"pressure": p_hi, "value": f1(v)})
+        except (CalculationError, ValueError):
+            pass
+
+        # (8d) zero as a DATUM, as a QUERY and as a LIMIT: the same isotherm with the origin (0, 0) as first adsorption point
+        # TODO(candidate finding, reported): an UPPER limit of zero -- (None, 0), (0, 0) -- is taken for "no limits" by the unchanged tree (`any(limits)`), so on
+        # this twin it returns the whole branch instead of the single point at zero; only a zero LOWER limit is generated here.
+        d_rows = idx["des"]
+        zp, zl = [0.0] + pa, [0.0] + la_
+        z = c02.make_iso(pg, type("W", (), {"mat": iso.material, "ads": iso.adsorbate})(), lab, zp + [ps[i] for i in d_rows], zl + [ls[i] for i in d_rows],
+                         float(iso._temperature), branch=[0] * len(zp) + [1] * len(d_rows))
+        zmarks = [0] * len(zp) + [1] * len(d_rows)
+        for q0 in (0.0, rng.choice([0, np.float64(0.0), np.int64(0), np.float32(0.0), [0.0], np.array([0.0])])):
+            ck.count(("zero-query", type(q0).__name__, tuple(lab[:6]), rq_p, rq_l, ord_m), bucket="zero query")
+            res = {}
+            for nm, th in (("loading_at(0)", lambda: z.loading_at(q0)), ("pressure_at(0)", lambda: z.pressure_at(q0)),
+                           ("loading_at(0, requested units)", lambda: z.loading_at(q0, **pkw, **olkw)),
+                           ("pressure_at(0, requested units)", (lambda: z.pressure_at(q0, **olkw, **pkw)) if rq_l[1] is not None else (lambda: 0.0))):
+                try:
+                    res[nm] = f1(th())
+                except Exception as e:  # noqa
+                    res[nm] = repr(e)[:120]
+            if any(v != 0.0 for v in res.values()):
+                ck.fail_case({**base_sig, "accessor": "PointIsotherm.loading_at / pressure_at", "clause": "coincides with the data at a measured point (the point at zero)"},
+                             {"query": repr(q0), "got": res, "expected": 0.0, "first_points": [zp[:2], zl[:2]]})
+        try:
+            got = fl(z.loading_at([0.0, pa[0] / 2]))
+            ok = got[0] == 0.0 and close(got[1], la_[0] / 2, rel=1e-12)
+        except Exception as e:  # noqa
+            got, ok = repr(e)[:160], False
+        if not ok:
+            ck.fail_case({"accessor": "PointIsotherm.loading_at", "clause": "coincides at knots / linear between (first segment from zero)", "state": route}, {"query": [0.0, pa[0] / 2], "got": got, "expected": [0.0, la_[0] / 2]})
+        zc_p = [float(expected_pressure(P, lab, rq_p, v)) for v in zp]
+        zc_l = [float(expected_loading(P, lab, rq_l, ord_m, v)) for v in zl]
+        z0 = rng.choice([0, 0.0, np.float64(0.0), np.int64(0)])
+        for what, kw, nat, conv in (("pressure", pkw, zp, zc_p), ("loading", olkw, zl, zc_l)):
+            for lim, kw_, exp in (((z0, nat[2]), {}, nat[:3]), ((z0, conv[2] * (1 + 1e-9)), kw, conv[:3]), (None, kw, conv)):
+                ck.count(("zero-limit", what, lim is None, bool(kw_), type(z0).__name__), bucket="limits")
+                try:
+                    got = fl(getattr(z, what)(branch="ads", limits=lim, **kw_))
+                    ok = vals_eq(got, exp, 1e-10) and got[0] == 0.0
+                except Exception as e:  # noqa
+                    got, ok = repr(e)[:160], False
+                if not ok:
+                    ck.fail_case({**base_sig, "accessor": "PointIsotherm." + what, "clause": "limits select exactly the stored points (lower limit zero, first point at zero)", "units": "requested" if kw_ else "stored"},
+                                 {"limits": None if lim is None else [repr(lim[0]), lim[1]], "got": got, "expected": exp})
+        ask(" ".join(["colP", tok([frac(x) for x in zp + [ps[i] for i in d_rows]]), mtok(zmarks), "ads", "~", "~", tok(0), tok(zp[2])]),
+            ("vals", lambda: z.pressure(branch="ads", limits=(0, zp[2]))), {"accessor": "pressure column", "limits": "(0, stored value), first point at zero"})
+        for q in (0.0, pa[0] / 2):
+            ask(" ".join(["il", tok([frac(x) for x in zp]), tok([frac(x) for x in zl]), qstr(q)]), ("val", lambda q=q: z.loading_at(q)), {"accessor": "loading_at", "query": q, "first point": "origin"})
+
     def build_model_state():
         name, tk, tu = temp_spec()
         route = rng.choice(["constructed", "convert_temperature"])
@@ -756,7 +958,8 @@ def run(ck):
         other_b = "des" if own == "ads" else "ads"
         for what, exp, kw in (("pressure", exp_p, pkw), ("loading", exp_l, lkw)):
             lim0 = mid_limits(exp)
-            for branch, lim in ((None, None), (own, None), (None, lim0), (own, lim0)):
+            limz = None if lim0 is None else (rng.choice([0, 0.0, np.float64(0.0)]), lim0[1])     # a lower limit of zero is a limit (all values are positive)
+            for branch, lim in ((None, None), (own, None), (None, lim0), (own, lim0), (own, limz)):
                 e = [x for x in exp if lim is None or (lim[0] < x < lim[1])]
                 try:
                     got = [float(x) for x in getattr(miso, what)(points=npts, branch=branch, limits=lim, **kw)]
@@ -793,6 +996,24 @@ def run(ck):
         ck.count(("state.model.loading_at", mname, str(lab[6]), tuple(lab[:6]), rq_p, rq_l, rq_m), bucket="accessor:model.loading_at")
         if not ok and mname != "Virial":
             ck.fail_case({**base_sig, **fsig, "accessor": "ModelIsotherm.loading_at", "clause": "bare model after unit conversion"}, {"got": str(got), "expected": float(exp) if exp is not None else None})
+        # a query of exactly zero (falsy) is a query: these models pass through the origin, in every representation
+        if mname != "Virial":
+            q0 = rng.choice([0, 0.0, np.float64(0.0), np.int64(0)])
+            res = {}
+            calls = [("loading_at(0)", lambda: miso.loading_at(q0)), ("loading_at(0, requested units)", lambda: miso.loading_at(q0, **pkw, **lkw))]
+            if mname in ("Langmuir", "Henry", "Toth"):
+                calls.append(("pressure_at(0)", lambda: miso.pressure_at(q0)))
+                if rq_l[1] is not None:
+                    calls.append(("pressure_at(0, requested units)", lambda: miso.pressure_at(q0, **lkw, **pkw)))
+            for nm, th in calls:
+                try:
+                    res[nm] = float(np.asarray(th(), dtype=float).reshape(-1)[0])
+                except Exception as ex:  # noqa
+                    res[nm] = repr(ex)[:120]
+            ck.count(("model-zero-query", mname, type(q0).__name__, tuple(lab[:6]), rq_p, rq_l, rq_m), bucket="zero query")
+            if any(v != 0.0 for v in res.values()):
+                ck.fail_case({**base_sig, "accessor": "ModelIsotherm.loading_at / pressure_at", "clause": "bare model after unit conversion (query of exactly zero)"},
+                             {"query": repr(q0), "got": res, "expected": 0.0})
         if rq_l[1] is not None and mname in ("Langmuir", "Henry", "Toth", "Virial"):
             lf = float(expected_loading(P, lab, rq_l, rq_m, bare))
             tol = inv_tolerance(m, bare, np)
@@ -1026,6 +1247,9 @@ def run(ck):
                       "model isotherms (Langmuir, Henry, Toth, DSLangmuir, Virial; ads or des); requests biased to pressure-mode changes (p0(T)) and volume-basis loading changes (densities at T); "
                       "per state: SI oracle at the kelvin temperature, permanent conversion of a clone read natively (same branch / limits / query), other_data, has_branch, ordered read, "
                       "ModelIsotherm.pressure/loading columns with strict limits and branch guard, call sequences (fill rule, interpolation kind) on one object; find_limit_indices on sorted arrays; "
+                      "falsy option values: fill rules (number / pair) with zero in 8 Python and numpy types on loading_at / pressure_at (array and scalar queries, both branches, "
+                      "stored and requested units, against the converted copy, call sequence zero rule / no rule / pair), spreading_pressure_at under the zero rule in 4 spellings, "
+                      "a twin with the origin as first point (queries of exactly zero, limits (0, x) in stored and requested units), zero queries and zero lower limits on model isotherms; "
                       "Lean correspondence of every one of these (state accessors with the adsorbate tabulated at the exact kelvin temperature)")
     ck.assumptions += ["scipy.interpolate.interp1d for non-linear kinds (only 'coincides at knots' is claimed for them)",
                        "CoolProp values (saturation pressure, densities) enter as the constants returned by the real Adsorbate accessors at the kelvin temperature of the state",
